@@ -50,6 +50,73 @@ struct input_it
     }
 };
 
+// a genuinely single-pass range (like a range over std::istream_iterator): all iterators share one read position, so
+// a second traversal finds the range exhausted
+struct sp_state
+{
+    const elem_t* p;
+    const elem_t* e;
+};
+struct sp_it
+{
+    using iterator_category = std::input_iterator_tag;
+    using iterator_concept = std::input_iterator_tag;
+    using value_type = elem_t;
+    using difference_type = std::ptrdiff_t;
+    using pointer = const elem_t*;
+    using reference = elem_t;
+    struct proxy
+    {
+        elem_t v;
+        elem_t operator*() const
+        {
+            return v;
+        }
+    };
+    sp_state* st; // nullptr: the end sentinel
+    sp_it() : st(nullptr) {}
+    explicit sp_it(sp_state* s) : st(s) {}
+    bool at_end() const
+    {
+        return !st || (st->p == st->e);
+    }
+    elem_t operator*() const
+    {
+        return *st->p;
+    }
+    sp_it& operator++()
+    {
+        ++st->p;
+        return *this;
+    }
+    proxy operator++(int)
+    {
+        proxy r{*st->p};
+        ++st->p;
+        return r;
+    }
+    bool operator==(const sp_it& o) const
+    {
+        return at_end() == o.at_end();
+    }
+    bool operator!=(const sp_it& o) const
+    {
+        return !(*this == o);
+    }
+};
+struct sp_range
+{
+    sp_state st;
+    sp_it begin()
+    {
+        return sp_it(&st);
+    }
+    sp_it end()
+    {
+        return sp_it();
+    }
+};
+
 static std::vector<elem_t> elems(const std::string& h)
 {
     std::vector<elem_t> out;
@@ -203,7 +270,7 @@ static std::string run_case(const std::vector<std::string>& a)
         {
             y = elems(f[2]);
         }
-        else if(op == "ai" || op == "al" || op == "as" || op == "ar")
+        else if(op == "ai" || op == "al" || op == "as" || op == "ar" || op == "ars")
         {
             y = elems(f[1]);
             str.assign(y.begin(), y.end());
@@ -264,7 +331,9 @@ static std::string run_case(const std::vector<std::string>& a)
                 }
                 else if(op == "ii")
                 {
-                    IT(r.insert(P(1), input_it{y.data()}, input_it{y.data() + y.size()}));
+                    // single-pass input iterators
+                    sp_state st{y.data(), y.data() + y.size()};
+                    IT(r.insert(P(1), sp_it(&st), sp_it()));
                 }
                 else if(op == "il")
                 {
@@ -301,6 +370,11 @@ static std::string run_case(const std::vector<std::string>& a)
                 else if(op == "ar")
                 {
                     r.assign_range(y);
+                }
+                else if(op == "ars")
+                {
+                    sp_range sr{{y.data(), y.data() + y.size()}};
+                    r.assign_range(sr);
                 }
                 else if(op == "clr")
                 {
@@ -354,7 +428,7 @@ static std::string run_case(const std::vector<std::string>& a)
                 di_grow = c > old;
             }
             else if(op == "an") vec.assign(static_cast<std::size_t>(C(1)), X(2));
-            else if(op == "ai" || op == "al" || op == "as" || op == "ar")
+            else if(op == "ai" || op == "al" || op == "as" || op == "ar" || op == "ars")
             {
                 vec.assign(y.begin(), y.end());
             }
